@@ -75,6 +75,8 @@ def _configs(tier, seed):
         _cfg((2, 2, 1, 2), (2, 2, 1), "uint32", "uint32", enc="compressed_segmentation", block=(2, 2, 1), cost=8),   # two channels
         _cfg((3, 2, 2), (2, 2, 2), "uint16", "uint16", big_endian=True),        # big-endian input file
         _cfg((2, 2, 2), (2, 2, 1), "float32", "float32", big_endian=True, layout="flat", full=False),
+        # float64 voxels with 30 / 40 fractional bits (values within 2^-30 of a half-integer) into 8/16-bit targets
+        _cfg((2, 1, 1), (2, 1, 1), "float64", "uint8", fexp=-30, cost=4), _cfg((1, 2, 1), (1, 1, 1), "float64", "uint16", fexp=-40, full=False, cost=4),
     ]
     if tier == "thorough":
         out += [_cfg((5, 4, 3), (2, 2, 2), "uint16", "uint16", layout="sharded"), _cfg((4, 3, 3, 2), (4, 2, 1), "int32", "uint16"),
@@ -101,16 +103,17 @@ def _configs(tier, seed):
     return out
 
 
-def _fresh_volume(ctx, shape, dtype, exact):
+def _fresh_volume(ctx, shape, dtype, exact, fexp=-2):
     dt = real_np.dtype(dtype)
     if dt.kind == "f" and exact:
-        # float inputs that are converted: exact dyadic values with a common exponent 0 (24/53-bit mantissas)
+        # float inputs that are converted: exact dyadic values m * 2^fexp with a common exponent (22/51-bit mantissas;
+        # fexp = -2: quarter steps; fexp = -30 / -40: values a hair away from half-integers)
         a = real_np.empty(shape, dtype=object)
         prec = SDy.PREC[dt.itemsize]
         for idx in real_np.ndindex(*shape):
             m = z3.Int("v_" + "_".join(map(str, idx)))
             ctx.assume(z3.And(m > -(1 << (prec - 2)), m < (1 << (prec - 2))))
-            a[idx] = SDy(m, -2, prec, dt)
+            a[idx] = SDy(m, fexp, prec, dt)
         return SArray(a, dt)
     return SArray.fresh(tuple(shape), dtype, "v", exact_int=exact)
 
@@ -138,7 +141,7 @@ def H_convert(ctx, cfg):
     shape, cs, i, o = cfg["shape"], cfg["cs"], cfg["i"], cfg["o"]
     convert = (i != o) or bool(cfg["scaling"] and not cfg["ignore"])
     W = V.World(exact_int=convert)
-    vol = _fresh_volume(ctx, shape, i, convert)
+    vol = _fresh_volume(ctx, shape, i, convert, cfg.get("fexp", -2))
     ctx.input("volume", [x.__zexpr__() for x in vol.a.ravel()])
     for fid, expr in regions_for(PROPERTY, "convert"):
         ctx.region(fid, builtins.bool(eval(expr, {"cfg": cfg})))
@@ -381,7 +384,7 @@ def replay(cfg, cex):
     if dt.kind == "f" and not ((i != o) or (cfg["scaling"] and not cfg["ignore"])):
         vol = real_np.array(vals, dtype=real_np.uint32 if dt.itemsize == 4 else real_np.uint64).view(dt).reshape(shape)
     elif dt.kind == "f":
-        vol = (real_np.array(vals, dtype=real_np.float64) / 4).astype(dt).reshape(shape)
+        vol = (real_np.array(vals, dtype=real_np.float64) * 2.0 ** cfg.get("fexp", -2)).astype(dt).reshape(shape)
     else:
         vol = real_np.array([v if v < 2 ** 63 else v - 2 ** 64 for v in vals] if dt.kind == "i" else vals,
                             dtype=real_np.int64 if dt.kind == "i" else real_np.uint64).astype(dt).reshape(shape)
